@@ -90,6 +90,19 @@ def _zone_tzs(zone):
     return [base + alt + ',M1.2.0/0,M12.3.0/0', base + alt + ',M7.1.0/0,M6.3.0/0']
 
 
+def _amplified(args):
+    """variants of a counterexample with one 4-octet window of one bytes argument set to 0x00ffffff"""
+    out = []
+    for k, v in args.items():
+        if isinstance(v, dict) and '__bytes__' in v:
+            h = v['__bytes__']
+            for off in range(0, len(h) - 7, 2):
+                nv = h[:off] + '00ffffff' + h[off + 8:]
+                if nv != h:
+                    out.append(dict(args, **{k: {'__bytes__': nv}}))
+    return out[:64]
+
+
 def replay(part, args, workdir, tz_offsets=None, tag='cex', timeout=60, zone=None):
     """Concrete run of the same harness body on the uninstrumented repo. -> dict(ok, observed)"""
     src = os.path.join(workdir, part.name + '.py')
@@ -311,6 +324,21 @@ def check(pid, tier, seed):
                     continue
                 rr = replay(p, cex['args'], workdir, tz_offsets=cex.get('env_offsets'), zone=cex.get('env_zone'))
                 traces += 1
+                if rr and rr.get('ok') is True and p.amplify:
+                    # the symbolic tick budget is tight, the concrete line budget generous: the solver's
+                    # input shows work growing with a length field, so inflate each 4-octet window of it and
+                    # let the real code decide
+                    variants = _amplified(cex['args'])
+                    if variants:
+                        many = replay(p, [{'args': v} for v in variants], workdir, tag='amp', timeout=300)
+                        traces += len(variants)
+                        if isinstance(many, list):
+                            for v, one in zip(variants, many):
+                                if one.get('ok') is False:
+                                    cex = dict(cex, args=v, observed='amplified from solver input %s'
+                                               % json.dumps(cex['args'])[:200])
+                                    rr = one
+                                    break
                 if rr and rr.get('ok') is False:
                     n_cex += 1
                     rp = os.path.join(replay_dir, '%s-%d.json' % (pid, n_cex))
@@ -362,6 +390,11 @@ def check(pid, tier, seed):
                     lines.append('VIOLATION property=%s replay=%s' % (pid, rp))
                     lines.append('  kernel=%s witness=%s' % (kr['name'], json.dumps(wargs)[:300]))
                     violations += 1
+                elif kr.get('sat_means') == 'candidate' and rr and rr.get('ok') is True:
+                    # the solver's answer is a candidate only (e.g. an ambiguous regex loop): the property is
+                    # decided by what the real code does with the witness, and it behaved
+                    lines.append('NOTE kernel=%s candidate %s does not violate the property on the real code'
+                                 % (kr['name'], json.dumps(wargs)[:200]))
                 else:
                     harness_errors.append('kernel %s: model does not reproduce: %s -> %s'
                                           % (kr['name'], json.dumps(wargs)[:300], rr))
